@@ -441,6 +441,16 @@ func (e *Engine) discharge(vcs []*VC, opts runOpts) {
 						to = 5 * time.Second
 					}
 				}
+				if j.o.KnownID != "" && to > 4*time.Second {
+					to = 4 * time.Second
+				}
+				if j.o.Witness != "" {
+					qw := strings.Replace(q, "(check-sat)", "(assert "+j.o.Witness+")\n(check-sat)", 1)
+					if rw := solve(qw, j.o.Name+".witness", 2*time.Second, false, opts.tmpdir, true); rw.Answer == "sat" {
+						j.o.Answer, j.o.Solver, j.o.Ms, j.o.Output = "sat", rw.Solver+"@witness", rw.Ms, rw.Output
+						continue
+					}
+				}
 				r := solve(q, j.o.Name, to, opts.all && j.o.Expect != "sat", opts.tmpdir, j.o.Expect == "sat")
 				j.o.Answer, j.o.Solver, j.o.Ms, j.o.Output = r.Answer, r.Solver, r.Ms, r.Output
 				if j.o.Expect != "sat" && (r.Answer == "timeout" || r.Answer == "unknown") {
